@@ -94,6 +94,8 @@ impl Completions {
             head = head.wrapping_add(1);
         }
 
+        #[cfg(a10_verif)]
+        crate::verif::sched_point(crate::verif::STORE_CQ_HEAD, self.entries_head.as_ptr().addr());
         // Let the kernel write more completions.
         unsafe { (&*self.entries_head.as_ptr()).store(head, Ordering::Release) };
 
